@@ -37,6 +37,7 @@ import copy
 import datetime
 import json
 import multiprocessing
+import pickle
 import random
 import struct
 import subprocess
@@ -788,6 +789,247 @@ def compare_constants(col, baseline, calls, ents, static, phase):
     return True
 
 
+# ------------------------------------------------------------------------------------------------ cross-process histories
+# State that is filled once per interpreter (a memo keyed too coarsely, an lru_cache, a lazily initialised table)
+# cannot be seen by re-running calls inside the process that already filled it. Here every call of a sequence is
+# evaluated (a) inside the in-order sequence, (b) inside the reversed sequence, (c) ALONE — each in its own
+# process forked from a parent that has imported geodepy but has never called into it (the arguments are drawn in
+# yet another process, because the generators use the library). Results are compared bit for bit.
+class ShippedRef:
+    """pickle-able stand-in for a module-level object of the six modules"""
+    __slots__ = ('name',)
+
+    def __init__(self, name):
+        self.name = name
+
+    def __deepcopy__(self, memo):
+        return self
+
+    def __reduce__(self):
+        return (ShippedRef, (self.name,))
+
+
+def encode_args(args):
+    memo = {i: ShippedRef(NAME_OF[i]) for i in REMEMBERED}
+    return pickle.dumps(copy.deepcopy(args, memo))
+
+
+def _resolve_ref(name):
+    parts = name.split('.')
+    o = SIX[parts[0]]
+    for q in parts[1:]:
+        o = getattr(o, q)
+    return o
+
+
+def decode_args(v):
+    if isinstance(v, ShippedRef):
+        return _resolve_ref(v.name)
+    if isinstance(v, list):
+        return [decode_args(x) for x in v]
+    if isinstance(v, tuple):
+        return tuple(decode_args(x) for x in v)
+    if isinstance(v, dict):
+        return {k: decode_args(x) for k, x in v.items()}
+    if isinstance(v, CLASSES4):
+        for k, x in list(vars(v).items()):
+            if isinstance(x, (ShippedRef, list, tuple, dict) + CLASSES4):
+                object.__setattr__(v, k, decode_args(x))
+    return v
+
+
+def in_child(fn):
+    """run fn() in a forked child, return ('ok', value) | ('err', text)"""
+    r, w = os.pipe()
+    pid = os.fork()
+    if pid == 0:
+        try:
+            os.close(r)
+            try:
+                data = pickle.dumps(('ok', fn()))
+            except BaseException as ex:      # noqa
+                data = pickle.dumps(('err', f'{type(ex).__name__}: {ex} :: {traceback.format_exc()[-300:]}'))
+            with os.fdopen(w, 'wb') as f:
+                f.write(data)
+        finally:
+            os._exit(0)
+    os.close(w)
+    with os.fdopen(r, 'rb') as f:
+        data = f.read()
+    os.waitpid(pid, 0)
+    if not data:
+        return ('err', 'child process died without an answer')
+    return pickle.loads(data)
+
+
+def ellipsoid_pool(rng):
+    """the shipped ellipsoids and fresh ones that share an axis, a flattening, or nearly so, with them"""
+    S = [K.grs80, K.wgs84, K.ans, K.intl24]
+    a = rng.choice(S)
+    b = rng.choice(S)
+    return S + S[:2] + [
+        K.Ellipsoid(K.grs80.semimaj, K.grs80.inversef),        # equal to grs80, another object
+        K.Ellipsoid(K.grs80.semimaj, K.wgs84.inversef),
+        K.Ellipsoid(K.ans.semimaj, K.grs80.inversef),          # same flattening, other axis
+        K.Ellipsoid(K.intl24.semimaj, K.ans.inversef),
+        K.Ellipsoid(a.semimaj, b.inversef),
+        K.Ellipsoid(rng.uniform(6.3e6, 6.4e6), a.inversef),
+        K.Ellipsoid(a.semimaj, rng.uniform(280, 320)),
+        K.Ellipsoid(a.semimaj, a.inversef + rng.choice([1e-9, 1e-7, 1e-6, -1e-6, 1e-4, -1e-3])),
+        K.Ellipsoid(a.semimaj + rng.choice([0.001, 0.5, -2.0, 23.0]), a.inversef),
+    ]
+
+
+ELL_ENTRIES = ['Convert.rect_radius', 'Convert.alpha_coeff', 'Convert.beta_coeff', 'Convert.psfandgridconv',
+               'Convert.geo2grid', 'Convert.geo2grid', 'Convert.grid2geo', 'Convert.grid2geo', 'Convert.xyz2llh',
+               'Convert.llh2xyz', 'Geodesy.vincdir', 'Geodesy.vincinv', 'Geodesy.line_sf', 'Geodesy.rho', 'Geodesy.nu',
+               'Geodesy.vincinv_utm', 'Geodesy.vincdir_utm']
+DEFAULT_ELL_ENTRIES = ['Transform.transform_mga94_to_mga2020', 'Transform.transform_mga2020_to_mga94',
+                       'Transform.conform7_shipped', 'Transform.transform_atrf2014_to_gda2020']
+
+
+def lookalike(rng, t):
+    """a parameter set with the labels and reference epoch of the shipped `t` but other numbers"""
+    j = lambda s: rng.uniform(-s, s)
+    dated = isinstance(t.ref_epoch, datetime.date)
+    sd = rng.choice([None, t.tf_sd, G.rand_sd(rng, dated)])
+    return K.Transformation(t.from_datum, t.to_datum, t.ref_epoch, t.tx + j(1), t.ty + j(1), t.tz + j(1), t.sc + j(0.01),
+                            t.rx + j(0.01), t.ry + j(0.01), t.rz + j(0.01),
+                            t.d_tx + (j(0.001) if dated else 0.0), t.d_ty, t.d_tz, t.d_sc, t.d_rx, t.d_ry,
+                            t.d_rz + (j(0.0001) if dated else 0.0), sd)
+
+
+def xp_generate(j):
+    """-> [(entry name, pickled encoded args, repeat_of, text)], drawn in a process of its own"""
+    entries = [e for e in build_entries() if e.name != 'Transform.ntv2_2d']
+    by = {e.name: e for e in entries}
+    weights = [e.weight for e in entries]
+    rng = random.Random(f'{seed()}:purity-xp:{j}')
+    if j % 4 == 3:
+        calls, _ = make_sequence(1000000 + j, entries, weights)
+        calls = [(e, a) for e, a, r in calls if r is None]
+    else:
+        length = rng.randint(4, 50)
+        pool = ellipsoid_pool(rng)
+        calls, tries = [], 0
+        while len(calls) < length and tries < 400:
+            tries += 1
+            r = rng.random()
+            try:
+                if r < 0.55:
+                    e = by[rng.choice(ELL_ENTRIES)]
+                    args = e.gen(rng)
+                    pos = [i for i, x in enumerate(args) if isinstance(x, K.Ellipsoid)]
+                    for ell in rng.sample(pool, rng.randint(2, 4)):
+                        a2 = list(args)
+                        for i in pos:
+                            a2[i] = ell
+                        calls.append((e, a2))
+                elif r < 0.65:
+                    e = by[rng.choice(DEFAULT_ELL_ENTRIES)]
+                    calls.append((e, e.gen(rng)))
+                elif r < 0.9:
+                    t = getattr(K, rng.choice(G.TRANS_NAMES))
+                    group = [t, lookalike(rng, t), -t]
+                    if rng.random() < 0.5:
+                        group.append(lookalike(rng, t))
+                    x, y, z = G.rand_xyz(rng, 1e7)
+                    d = G.rand_date(rng)
+                    v = G.rand_psd(rng) if rng.random() < 0.6 else None
+                    dated = isinstance(t.ref_epoch, datetime.date)
+                    kind = rng.choice(['c7', 'c14', 'add', 'neg'] if dated else ['c7', 'neg'])
+                    for T in group:
+                        if kind == 'c7':
+                            calls.append((by['Transform.conform7'], [x, y, z, T, v]))
+                        elif kind == 'c14':
+                            calls.append((by['Transform.conform14'], [x, y, z, d, T, v]))
+                        elif kind == 'add':
+                            calls.append((by['Constants.Transformation.add'], [T, d]))
+                        else:
+                            calls.append((by['Constants.Transformation.neg'], [T]))
+                else:
+                    e = rng.choices(entries, weights)[0]
+                    calls.append((e, e.gen(rng)))
+            except Exception:       # noqa: an invalid draw of a generator that uses the library
+                continue
+        rng.shuffle(calls)
+        calls = calls[:50]
+    out = [(e.name, encode_args(a), None, call_text(e, a)[:1500]) for e, a in calls]
+    n = len(out)
+    for _ in range(max(1, n // 5)):
+        i = rng.randrange(n)
+        out.append((out[i][0], out[i][1], i, f'<repeat of #{i}> {out[i][0]}'))
+    return out
+
+
+def xp_task(j):
+    """one sequence: in order, reversed, and every call alone, each in a fresh process"""
+    t0 = time.time()
+    col = Collector()
+    by = {e.name: e for e in build_entries()}
+    st, seq = in_child(lambda: xp_generate(j))
+    head = [f'replay: VERIF_SEED={seed()} corr_purity.py --xseq {j}']
+    if st != 'ok':
+        col.disagreement('harness-xp-error', f'xp sequence {j}', f'generator: {seq}', head)
+        seq = []
+    n = len(seq)
+    text = head + [f'#{i} {c[3][:400]}' for i, c in enumerate(seq)]
+    if len(text) > 14:
+        text = text[:5] + [f'… {len(text) - 10} more …'] + text[-5:]
+    nproc = 1
+
+    def runner(order):
+        def f():
+            return {i: invoke(by[seq[i][0]], decode_args(pickle.loads(seq[i][1]))) for i in order}
+        return f
+
+    def checked(order, what):
+        nonlocal nproc
+        nproc += 1
+        st, res = in_child(runner(order))
+        if st != 'ok':
+            col.disagreement('harness-xp-error', f'xp sequence {j}', f'{what}: {res}', head)
+            return {}
+        col.evaluations += len(res)
+        return res
+
+    A = checked(list(range(n)), 'in-order run') if n else {}
+    for i, r in A.items():
+        col.covered.add(seq[i][0])
+        if r[0] != 'exc':
+            col.distinct.add(hash((seq[i][0], seq[i][1])))
+        rep = seq[i][2]
+        if rep is not None and rep in A and A[rep] != r:
+            col.violation(f'result-history-dependent:{seq[i][0]}', 'a repeated identical call returned a different result '
+                          '(cross-process sequence, in-order run)', text, show(r), show(A[rep]), seq[rep][3])
+    if n > 1 and A:
+        B = checked(list(range(n - 1, -1, -1)), 'reversed run')
+        for i, r in B.items():
+            if i in A and r != A[i]:
+                col.violation(f'result-history-dependent:{seq[i][0]}:cross-process',
+                              f'call #{i} returned one result inside the in-order sequence and another inside the reversed '
+                              'sequence run in a fresh process', text, f'reversed history: {show(r)}',
+                              f'in-order history: {show(A[i])}', seq[i][3])
+    if A:
+        for i in range(n):
+            if seq[i][2] is not None:
+                continue
+            r = checked([i], f'call #{i} alone').get(i)
+            if r is not None and i in A and r != A[i]:
+                col.violation(f'result-history-dependent:{seq[i][0]}:cross-process',
+                              f'call #{i} returned one result inside the in-order sequence and another when it is the only '
+                              'library call of a fresh process', text, f'in-order history: {show(A[i])}',
+                              f'alone in a fresh process: {show(r)}', seq[i][3])
+    col.stats.add('xp_sequences')
+    col.stats.add('xp_calls', n)
+    col.stats.add('xp_processes', nproc)
+    col.stats.add('xp_biased' if j % 4 != 3 else 'xp_regular')
+    return {'violations': col.violations, 'vcount': col.vcount, 'disagreements': col.disagreements,
+            'dcount': col.dcount, 'stats': col.stats.counts, 'evaluations': col.evaluations,
+            'distinct': list(col.distinct), 'samples': [], 'covered': sorted(col.covered),
+            'thread_hist': {}, 'seconds': time.time() - t0}
+
+
 def run_shard(job):
     shard, idxs, static = job
     t0 = time.time()
@@ -825,6 +1067,8 @@ def main():
     ap.add_argument('--out', required=True)
     ap.add_argument('--seq', type=int, default=None, help='run only this sequence index (replay)')
     ap.add_argument('--sequences', type=int, default=None)
+    ap.add_argument('--xseq', type=int, default=None, help='run only this cross-process sequence index (replay)')
+    ap.add_argument('--xsequences', type=int, default=None)
     a = ap.parse_args()
     t0 = time.time()
     nseq = a.sequences or (20000 if tier() == 'thorough' else 400)
@@ -838,12 +1082,27 @@ def main():
                               'detail': 'geodepy.constants._verif_writes does not exist with GEODEPY_VERIF=1: the write '
                                         'barrier of DESIGN section 8 is not installed in this tree; only the snapshot checks ran',
                               'input': []})
-    if a.seq is not None:
+    # cross-process histories first: this process has imported geodepy but never called into it, and every
+    # task runs in a worker forked from it that is used once
+    nxp = a.xsequences if a.xsequences is not None else (1000 if tier() == 'thorough' else 40)
+    xjobs = [a.xseq] if a.xseq is not None else ([] if a.seq is not None else list(range(nxp)))
+    xparts = []
+    t_xp = time.time()
+    if xjobs:
+        ctx = multiprocessing.get_context('fork')
+        with ctx.Pool(min(NPROC, len(xjobs)), maxtasksperchild=1) as pool:
+            xparts = pool.map(xp_task, xjobs, chunksize=1)
+    t_xp = time.time() - t_xp
+    if a.xseq is not None:
+        jobs = []
+    elif a.seq is not None:
         jobs = [(0, [a.seq], static)]
     else:
         nsh = min(NPROC, max(1, nseq // 20))
         jobs = [(s, list(range(s, nseq, nsh)), static) for s in range(nsh)]
-    if len(jobs) == 1:
+    if not jobs:
+        parts = []
+    elif len(jobs) == 1:
         parts = [run_shard(jobs[0])]
     else:
         ctx = multiprocessing.get_context('fork')
@@ -853,7 +1112,7 @@ def main():
     violations, vcount, dis, dcount = {}, {}, {}, {}
     stats = Stats()
     evaluations, distinct, samples, covered, thist = 0, set(), [], set(), {}
-    for p in parts:
+    for p in parts + xparts:
         for k, L in p['violations'].items():
             violations.setdefault(k, []).extend(L)
         for k, c in p['vcount'].items():
@@ -889,7 +1148,17 @@ def main():
         'sequences': sd.get('sequences', 0), 'sequence_calls': sd.get('sequence_calls', 0),
         'repeated_identical_calls': sd.get('repeated_calls', 0), 'exceptions_as_results': sd.get('exceptions', 0),
         'evaluations_by_phase': {'in_order': sd.get('sequence_calls', 0), 'threads': sd.get('thread_calls', 0),
-                                 'shuffled': evaluations - sd.get('sequence_calls', 0) - sd.get('thread_calls', 0)},
+                                 'shuffled': sum(p['evaluations'] for p in parts) - sd.get('sequence_calls', 0)
+                                 - sd.get('thread_calls', 0),
+                                 'cross_process': sum(p['evaluations'] for p in xparts)},
+        'cross_process': {'sequences': sd.get('xp_sequences', 0), 'biased_sequences': sd.get('xp_biased', 0),
+                          'regular_sequences': sd.get('xp_regular', 0), 'calls': sd.get('xp_calls', 0),
+                          'fresh_processes': sd.get('xp_processes', 0), 'seconds': round(t_xp, 1),
+                          'what': 'every call evaluated in the in-order sequence, in the reversed sequence and alone, '
+                                  'each in a process forked from a parent that never called the library; biased '
+                                  'sequences put the same coordinates through grs80/wgs84/ans/intl24 and fresh '
+                                  'ellipsoids sharing an axis / a flattening (or nearly), and the same point through a '
+                                  'shipped transformation, its negation and look-alikes with the same labels and epoch'},
         'thread_runs': sd.get('thread_runs', 0), 'threads_histogram': dict(sorted(thist.items())),
         'api_entries': len(entries), 'api_entries_covered': len(covered),
         'api_entries_not_covered': sorted(e.name for e in entries if e.name not in covered),
